@@ -116,3 +116,297 @@ Print Assumptions C17_detached_not_attached.
 Print Assumptions C17_other_version_refused.
 Print Assumptions C17_signers_refuse.
 Print Assumptions C17_sealer_refuses.
+
+From SP Require Import Spec AcceptDefs AcceptSignProofs AcceptEncProofs AcceptScProofs GoLang2 GoAstProofs2 GoAstProofs4b GoAstProofs7c GoAstOpen GoAstRecv GoEndToEndGate.
+(* ---------- paste into props/C17.v (at the end, before the Print Assumptions) ----------
+   SOURCE END TO END: the gate at the level of the translated Go code.  Success of the TRANSLATED Verify / NewVerifyStream /
+   VerifyDetached / VerifyDetachedReader / Open / NewDecryptStream / SigncryptOpen / NewSigncryptOpenStream implies that the header
+   decoded from the input names "saltpack", carries a version the validator accepts and the entry point's mode (gated_view:
+   GateProofs.gated with the header view named; the C17_source_end_to_end_X_gate theorems restate four of them with `gated` itself); the
+   refusals as outcomes for every input whose header decodes; cross-mode / cross-version refusals of every genuine message of
+   the model's senders and of the general specification encoders.  Additional imports needed in props/C17.v:
+     From SP Require Import Spec AcceptDefs AcceptSignProofs AcceptEncProofs AcceptScProofs
+                            GoLang2 GoAstProofs2 GoAstProofs4b GoAstProofs7c GoAstOpen GoAstRecv GoEndToEndGate.   *)
+
+Local Open Scope string_scope.
+Theorem C17_source_end_to_end_Verify_gated (c : crypto) (vd : validator) (kr : sigring) (VV KR : gval) (input pk msg : bytes) :
+  verify_class (fst (run_func2 (ext_verify c vd kr) f_saltpack_Verify [VV; VBytes input; KR])) = Ok (pk, msg) ->
+  gated_view view_sig_header (Some vd) mt_attached input.
+Proof. exact (go_Verify_gated c vd kr VV KR input pk msg). Qed.
+
+Theorem C17_source_end_to_end_Verify_gated_nil_error (c : crypto) (vd : validator) (kr : sigring) (VV KR : gval) (input : bytes) (sg body : gval) :
+  fst (run_func2 (ext_verify c vd kr) f_saltpack_Verify [VV; VBytes input; KR]) = ORet [sg; body; VNil] ->
+  gated_view view_sig_header (Some vd) mt_attached input.
+Proof. exact (go_Verify_gated_nil_error c vd kr VV KR input sg body). Qed.
+
+Theorem C17_source_end_to_end_NewVerifyStream_gated_nil_error (c : crypto) (vd : validator) (kr : sigring) (VV rd KR : gval) (input : bytes) (sg rdr : gval) :
+  rdr_bytes rd = Some input ->
+  fst (run_func2 (ext_NVS c vd kr) f_saltpack_NewVerifyStream [VV; rd; KR]) = ORet [sg; rdr; VNil] ->
+  gated_view view_sig_header (Some vd) mt_attached input.
+Proof. exact (go_NewVerifyStream_gated_nil_error c vd kr VV rd KR input sg rdr). Qed.
+
+Theorem C17_source_end_to_end_VerifyDetached_gated (c : crypto) (vd : validator) (kr : sigring) (VV KR : gval) (msg sigfile pk : bytes) :
+  vd_class (fst (run_func2 (ext_vdet2 c vd kr) f_saltpack_VerifyDetached [VV; VBytes msg; VBytes sigfile; KR])) = Ok pk ->
+  gated_view view_sig_header (Some vd) mt_detached sigfile.
+Proof. exact (go_VerifyDetached_gated c vd kr VV KR msg sigfile pk). Qed.
+
+Theorem C17_source_end_to_end_VerifyDetachedReader_gated (c : crypto) (vd : validator) (kr : sigring) (VV KR : gval) (msg : bytes)
+        (rerr : option (String.string * list gval)) (sigfile pk : bytes) :
+  let rv := match rerr with Some (n, a) => Some (VErr n a) | None => None end in
+  vd_class (fst (run_func2 (ext_vdet c vd kr) f_saltpack_VerifyDetachedReader [VV; g_rdr msg rv; VBytes sigfile; KR])) = Ok pk ->
+  gated_view view_sig_header (Some vd) mt_detached sigfile.
+Proof. exact (go_VerifyDetachedReader_gated c vd kr VV KR msg rerr sigfile pk). Qed.
+
+Theorem C17_source_end_to_end_VerifyDetached_gated_nil_error (c : crypto) (vd : validator) (kr : sigring) (VV KR : gval) (msg sigfile : bytes) (sg : gval) :
+  fst (run_func2 (ext_vdet2 c vd kr) f_saltpack_VerifyDetached [VV; VBytes msg; VBytes sigfile; KR]) = ORet [sg; VNil] ->
+  gated_view view_sig_header (Some vd) mt_detached sigfile.
+Proof. exact (go_VerifyDetached_gated_nil_error c vd kr VV KR msg sigfile sg). Qed.
+
+Theorem C17_source_end_to_end_VerifyDetachedReader_gated_nil_error (c : crypto) (vd : validator) (kr : sigring) (VV KR : gval) (msg : bytes)
+        (rerr : option (String.string * list gval)) (sigfile : bytes) (sg : gval) :
+  let rv := match rerr with Some (n, a) => Some (VErr n a) | None => None end in
+  fst (run_func2 (ext_vdet c vd kr) f_saltpack_VerifyDetachedReader [VV; g_rdr msg rv; VBytes sigfile; KR]) = ORet [sg; VNil] ->
+  gated_view view_sig_header (Some vd) mt_detached sigfile.
+Proof. exact (go_VerifyDetachedReader_gated_nil_error c vd kr VV KR msg rerr sigfile sg). Qed.
+
+Theorem C17_source_end_to_end_Open_gated (c : crypto) (pm : bytes -> gval) (vd : validator) (kr : keyring) (VV RING : gval) (input : bytes) (m : mki) (pt : bytes) :
+  open_class (fst (run_func2 (ext_open c pm vd kr) f_saltpack_Open [VV; VBytes input; RING])) = Ok (m, pt) ->
+  gated_view view_enc_header (Some vd) mt_encryption input.
+Proof. exact (go_Open_gated c pm vd kr VV RING input m pt). Qed.
+
+Theorem C17_source_end_to_end_Open_gated_nil_error (c : crypto) (pm : bytes -> gval) (vd : validator) (kr : keyring) (VV RING : gval) (input : bytes) (mk body : gval) :
+  fst (run_func2 (ext_open c pm vd kr) f_saltpack_Open [VV; VBytes input; RING]) = ORet [mk; body; VNil] ->
+  gated_view view_enc_header (Some vd) mt_encryption input.
+Proof. exact (go_Open_gated_nil_error c pm vd kr VV RING input mk body). Qed.
+
+Theorem C17_source_end_to_end_NewDecryptStream_gated_nil_error (c : crypto) (pm : bytes -> gval) (vd : validator) (kr : keyring) (VV rd RING : gval) (input : bytes) (mk rdr : gval) :
+  rdr_bytes rd = Some input ->
+  fst (run_func2 (ext_nds c pm vd kr) f_saltpack_NewDecryptStream [VV; rd; RING]) = ORet [mk; rdr; VNil] ->
+  gated_view view_enc_header (Some vd) mt_encryption input.
+Proof. exact (go_NewDecryptStream_gated_nil_error c pm vd kr VV rd RING input mk rdr). Qed.
+
+Theorem C17_source_end_to_end_SigncryptOpen_gated (c : crypto) (kr : keyring) (signers : sigring) (rv : resolver) (KR RV : gval) (input : bytes)
+        (s : option bytes) (pt : bytes) :
+  scopen_class (fst (run_func2 (ext_scopen c kr signers rv) f_saltpack_SigncryptOpen [VBytes input; KR; RV])) = Ok (s, pt) ->
+  gated_view view_enc_header None mt_signcryption input.
+Proof. exact (go_SigncryptOpen_gated c kr signers rv KR RV input s pt). Qed.
+
+Theorem C17_source_end_to_end_SigncryptOpen_gated_nil_error (c : crypto) (kr : keyring) (signers : sigring) (rv : resolver) (KR RV : gval) (input : bytes)
+        (sg body : gval) :
+  fst (run_func2 (ext_scopen c kr signers rv) f_saltpack_SigncryptOpen [VBytes input; KR; RV]) = ORet [sg; body; VNil] ->
+  gated_view view_enc_header None mt_signcryption input.
+Proof. exact (go_SigncryptOpen_gated_nil_error c kr signers rv KR RV input sg body). Qed.
+
+Theorem C17_source_end_to_end_NewSigncryptOpenStream_gated_nil_error (c : crypto) (kr : keyring) (signers : sigring) (rv : resolver) (rd KR RV : gval)
+        (input : bytes) (sg rdr : gval) :
+  rdr_bytes rd = Some input ->
+  fst (run_func2 (ext_nsos c kr signers rv) f_saltpack_NewSigncryptOpenStream [rd; KR; RV]) = ORet [sg; rdr; VNil] ->
+  gated_view view_enc_header None mt_signcryption input.
+Proof. exact (go_NewSigncryptOpenStream_gated_nil_error c kr signers rv rd KR RV input sg rdr). Qed.
+
+Theorem C17_source_end_to_end_Verify_gate_refusals (c : crypto) (vd : validator) (kr : sigring) (VV KR rd : gval) (input hb rest : bytes) (h : header) :
+  read_header_bytes input = Ok (hb, rest) -> decode_header view_sig_header hb = Ok h ->
+  rdr_bytes rd = Some input ->
+  sig_gate vd mt_attached h (fun nm =>
+    fst (run_func2 (ext_verify c vd kr) f_saltpack_Verify [VV; VBytes input; KR]) = ORet [VNil; VNil; VErr nm []] /\
+    fst (run_func2 (ext_NVS c vd kr) f_saltpack_NewVerifyStream [VV; rd; KR]) = ORet [VNil; VNil; VErr nm []]).
+Proof. exact (go_Verify_gate_refusals c vd kr VV KR rd input hb rest h). Qed.
+
+Theorem C17_source_end_to_end_VerifyDetached_gate_refusals (c : crypto) (vd : validator) (kr : sigring) (VV KR : gval) (msg : bytes)
+        (rerr : option (String.string * list gval)) (sigfile hb rest : bytes) (h : header) :
+  read_header_bytes sigfile = Ok (hb, rest) -> decode_header view_sig_header hb = Ok h ->
+  let rv := match rerr with Some (n, a) => Some (VErr n a) | None => None end in
+  sig_gate vd mt_detached h (fun nm =>
+    fst (run_func2 (ext_vdet2 c vd kr) f_saltpack_VerifyDetached [VV; VBytes msg; VBytes sigfile; KR]) = ORet [VNil; VErr nm []] /\
+    fst (run_func2 (ext_vdet c vd kr) f_saltpack_VerifyDetachedReader [VV; g_rdr msg rv; VBytes sigfile; KR])
+    = ORet [VNil; VErr nm []]).
+Proof. exact (go_VerifyDetached_gate_refusals c vd kr VV KR msg rerr sigfile hb rest h). Qed.
+
+Theorem C17_source_end_to_end_Open_gate_refusals (c : crypto) (pm : bytes -> gval) (vd : validator) (kr : keyring) (VV RING rd : gval)
+        (input hb rest : bytes) (h : header) :
+  read_header_bytes input = Ok (hb, rest) -> decode_header view_enc_header hb = Ok h ->
+  rdr_bytes rd = Some input ->
+  enc_gate (validate_version vd (h_version h)) mt_encryption h (fun nm =>
+    fst (run_func2 (ext_open c pm vd kr) f_saltpack_Open [VV; VBytes input; RING]) = ORet [pm input; VNil; VErr nm []] /\
+    fst (run_func2 (ext_nds c pm vd kr) f_saltpack_NewDecryptStream [VV; rd; RING]) = ORet [pm input; VNil; VErr nm []]).
+Proof. exact (go_Open_gate_refusals c pm vd kr VV RING rd input hb rest h). Qed.
+
+Theorem C17_source_end_to_end_SigncryptOpen_gate_refusals (c : crypto) (kr : keyring) (signers : sigring) (rv : resolver) (KR RV rd : gval)
+        (input hb rest : bytes) (h : header) :
+  read_header_bytes input = Ok (hb, rest) -> decode_header view_enc_header hb = Ok h ->
+  rdr_bytes rd = Some input ->
+  enc_gate (vmaj (h_version h) =? vmaj v2)%Z mt_signcryption h (fun nm =>
+    fst (run_func2 (ext_scopen c kr signers rv) f_saltpack_SigncryptOpen [VBytes input; KR; RV]) = ORet [VNil; VNil; VErr nm []] /\
+    fst (run_func2 (ext_nsos c kr signers rv) f_saltpack_NewSigncryptOpenStream [rd; KR; RV]) = ORet [VNil; VNil; VErr nm []]).
+Proof. exact (go_SigncryptOpen_gate_refusals c kr signers rv KR RV rd input hb rest h). Qed.
+
+Theorem C17_source_end_to_end_VerifyDetached_refuses_attached (c : crypto) (Hc : crypto_ok c) (v : version) (sk : bytes) (pieces : list bytes) (r r' : rng) (out : bytes)
+        (kr : sigring) (vd : validator) (VV KR : gval) (msg : bytes) (rerr : option (String.string * list gval)) :
+  v = v1 \/ v = v2 -> good_validator vd v ->
+  sign_attached_stream c v sk pieces r = Ok (out, r') ->
+  let rv := match rerr with Some (n, a) => Some (VErr n a) | None => None end in
+  fst (run_func2 (ext_vdet2 c vd kr) f_saltpack_VerifyDetached [VV; VBytes msg; VBytes out; KR])
+  = ORet [VNil; VErr "ErrWrongMessageType" []] /\
+  fst (run_func2 (ext_vdet c vd kr) f_saltpack_VerifyDetachedReader [VV; g_rdr msg rv; VBytes out; KR])
+  = ORet [VNil; VErr "ErrWrongMessageType" []].
+Proof. exact (go_VerifyDetached_refuses_attached c Hc v sk pieces r r' out kr vd VV KR msg rerr). Qed.
+
+Theorem C17_source_end_to_end_Verify_refuses_detached (c : crypto) (Hc : crypto_ok c) (v : version) (sk msg : bytes) (r r' : rng) (out : bytes)
+        (kr : sigring) (vd : validator) (VV KR rd : gval) :
+  v = v1 \/ v = v2 -> good_validator vd v ->
+  sign_detached c v sk msg r = Ok (out, r') ->
+  rdr_bytes rd = Some out ->
+  fst (run_func2 (ext_verify c vd kr) f_saltpack_Verify [VV; VBytes out; KR])
+  = ORet [VNil; VNil; VErr "ErrWrongMessageType" []] /\
+  fst (run_func2 (ext_NVS c vd kr) f_saltpack_NewVerifyStream [VV; rd; KR])
+  = ORet [VNil; VNil; VErr "ErrWrongMessageType" []].
+Proof. exact (go_Verify_refuses_detached c Hc v sk msg r r' out kr vd VV KR rd). Qed.
+
+Theorem C17_source_end_to_end_Verify_refuses_other_version (c : crypto) (Hc : crypto_ok c) (v v' : version) (sk : bytes) (pieces : list bytes) (r r' : rng) (out : bytes)
+        (kr : sigring) (VV KR rd : gval) :
+  v = v1 \/ v = v2 -> v' = v1 \/ v' = v2 -> v <> v' ->
+  sign_attached_stream c v sk pieces r = Ok (out, r') ->
+  rdr_bytes rd = Some out ->
+  fst (run_func2 (ext_verify c (Single v') kr) f_saltpack_Verify [VV; VBytes out; KR])
+  = ORet [VNil; VNil; VErr "ErrBadVersion" []] /\
+  fst (run_func2 (ext_NVS c (Single v') kr) f_saltpack_NewVerifyStream [VV; rd; KR])
+  = ORet [VNil; VNil; VErr "ErrBadVersion" []].
+Proof. exact (go_Verify_refuses_other_version c Hc v v' sk pieces r r' out kr VV KR rd). Qed.
+
+Theorem C17_source_end_to_end_VerifyDetached_refuses_spec_attached (c : crypto) (Hc : crypto_ok c) (p : S_sig) (kr : sigring) (vd : validator) (VV KR : gval) (msg : bytes)
+        (rerr : option (String.string * list gval)) :
+  (ss_major p = 1 \/ ss_major p = 2)%Z -> (0 <= ss_minor p <= 127)%Z ->
+  (len (ss_nonce p) < 4294967296)%N -> extras_ok (ss_extra_hdr p) ->
+  (len (mp_encode (S_sig_header_list c p S_mode_attached)) < 4294967296)%N ->
+  admits vd (ss_major p) (ss_minor p) ->
+  let rv := match rerr with Some (n, a) => Some (VErr n a) | None => None end in
+  fst (run_func2 (ext_vdet2 c vd kr) f_saltpack_VerifyDetached [VV; VBytes msg; VBytes (S_encode_attached c p); KR])
+  = ORet [VNil; VErr "ErrWrongMessageType" []] /\
+  fst (run_func2 (ext_vdet c vd kr) f_saltpack_VerifyDetachedReader [VV; g_rdr msg rv; VBytes (S_encode_attached c p); KR])
+  = ORet [VNil; VErr "ErrWrongMessageType" []].
+Proof. exact (go_VerifyDetached_refuses_spec_attached c Hc p kr vd VV KR msg rerr). Qed.
+
+Theorem C17_source_end_to_end_Verify_refuses_spec_detached (c : crypto) (Hc : crypto_ok c) (p : S_sig) (kr : sigring) (vd : validator) (VV KR rd : gval) :
+  (ss_major p = 1 \/ ss_major p = 2)%Z -> (0 <= ss_minor p <= 127)%Z ->
+  (len (ss_nonce p) < 4294967296)%N -> extras_ok (ss_extra_hdr p) ->
+  (len (mp_encode (S_sig_header_list c p S_mode_detached)) < 4294967296)%N ->
+  admits vd (ss_major p) (ss_minor p) ->
+  rdr_bytes rd = Some (S_encode_detached c p) ->
+  fst (run_func2 (ext_verify c vd kr) f_saltpack_Verify [VV; VBytes (S_encode_detached c p); KR])
+  = ORet [VNil; VNil; VErr "ErrWrongMessageType" []] /\
+  fst (run_func2 (ext_NVS c vd kr) f_saltpack_NewVerifyStream [VV; rd; KR])
+  = ORet [VNil; VNil; VErr "ErrWrongMessageType" []].
+Proof. exact (go_Verify_refuses_spec_detached c Hc p kr vd VV KR rd). Qed.
+
+Theorem C17_source_end_to_end_Verify_refuses_spec_other_version (c : crypto) (Hc : crypto_ok c) (p : S_sig) (kr : sigring) (v' : version) (VV KR rd : gval) :
+  (ss_major p = 1 \/ ss_major p = 2)%Z -> (0 <= ss_minor p <= 127)%Z ->
+  (len (ss_nonce p) < 4294967296)%N -> extras_ok (ss_extra_hdr p) ->
+  (len (mp_encode (S_sig_header_list c p S_mode_attached)) < 4294967296)%N ->
+  v' <> mkV (ss_major p) (ss_minor p) ->
+  rdr_bytes rd = Some (S_encode_attached c p) ->
+  fst (run_func2 (ext_verify c (Single v') kr) f_saltpack_Verify [VV; VBytes (S_encode_attached c p); KR])
+  = ORet [VNil; VNil; VErr "ErrBadVersion" []] /\
+  fst (run_func2 (ext_NVS c (Single v') kr) f_saltpack_NewVerifyStream [VV; rd; KR])
+  = ORet [VNil; VNil; VErr "ErrBadVersion" []].
+Proof. exact (go_Verify_refuses_spec_other_version c Hc p kr v' VV KR rd). Qed.
+
+Theorem C17_source_end_to_end_SigncryptOpen_refuses_spec_encryption (c : crypto) (Hc : crypto_ok c) (p : S_enc) (kr : keyring) (signers : sigring) (rv : resolver)
+        (KR RV rd : gval) :
+  enc_params_ok c p ->
+  rdr_bytes rd = Some (S_encode_encryption c p) ->
+  fst (run_func2 (ext_scopen c kr signers rv) f_saltpack_SigncryptOpen [VBytes (S_encode_encryption c p); KR; RV])
+  = ORet [VNil; VNil; VErr "ErrWrongMessageType" []] /\
+  fst (run_func2 (ext_nsos c kr signers rv) f_saltpack_NewSigncryptOpenStream [rd; KR; RV])
+  = ORet [VNil; VNil; VErr "ErrWrongMessageType" []].
+Proof. exact (go_SigncryptOpen_refuses_spec_encryption c Hc p kr signers rv KR RV rd). Qed.
+
+Theorem C17_source_end_to_end_Open_refuses_spec_signcryption (c : crypto) (pm : bytes -> gval) (p : S_sc) (vd : validator) (kr : keyring) (VV RING rd : gval) :
+  sc_params_ok c p ->
+  rdr_bytes rd = Some (S_encode_signcryption c p) ->
+  fst (run_func2 (ext_open c pm vd kr) f_saltpack_Open [VV; VBytes (S_encode_signcryption c p); RING])
+  = ORet [pm (S_encode_signcryption c p); VNil; VErr "ErrWrongMessageType" []] /\
+  fst (run_func2 (ext_nds c pm vd kr) f_saltpack_NewDecryptStream [VV; rd; RING])
+  = ORet [pm (S_encode_signcryption c p); VNil; VErr "ErrWrongMessageType" []].
+Proof. exact (go_Open_refuses_spec_signcryption c pm p vd kr VV RING rd). Qed.
+
+Theorem C17_source_end_to_end_signature_receivers_refuse_spec_encryption (c : crypto) (Hc : crypto_ok c) (p : S_enc) (kr : sigring) (vd : validator) (VV KR rd : gval)
+        (msg : bytes) (rerr : option (String.string * list gval)) :
+  enc_params_ok c p -> admits vd (se_major p) (se_minor p) ->
+  rdr_bytes rd = Some (S_encode_encryption c p) ->
+  let rv := match rerr with Some (n, a) => Some (VErr n a) | None => None end in
+  fst (run_func2 (ext_verify c vd kr) f_saltpack_Verify [VV; VBytes (S_encode_encryption c p); KR])
+  = ORet [VNil; VNil; VErr "ErrWrongMessageType" []] /\
+  fst (run_func2 (ext_NVS c vd kr) f_saltpack_NewVerifyStream [VV; rd; KR])
+  = ORet [VNil; VNil; VErr "ErrWrongMessageType" []] /\
+  fst (run_func2 (ext_vdet2 c vd kr) f_saltpack_VerifyDetached [VV; VBytes msg; VBytes (S_encode_encryption c p); KR])
+  = ORet [VNil; VErr "ErrWrongMessageType" []] /\
+  fst (run_func2 (ext_vdet c vd kr) f_saltpack_VerifyDetachedReader [VV; g_rdr msg rv; VBytes (S_encode_encryption c p); KR])
+  = ORet [VNil; VErr "ErrWrongMessageType" []].
+Proof. exact (go_signature_receivers_refuse_spec_encryption c Hc p kr vd VV KR rd msg rerr). Qed.
+
+Theorem C17_source_end_to_end_signature_receivers_refuse_spec_signcryption (c : crypto) (p : S_sc) (kr : sigring) (vd : validator) (VV KR rd : gval)
+        (msg : bytes) (rerr : option (String.string * list gval)) :
+  sc_params_ok c p -> admits vd 2 (sc_minor p) ->
+  rdr_bytes rd = Some (S_encode_signcryption c p) ->
+  let rv := match rerr with Some (n, a) => Some (VErr n a) | None => None end in
+  fst (run_func2 (ext_verify c vd kr) f_saltpack_Verify [VV; VBytes (S_encode_signcryption c p); KR])
+  = ORet [VNil; VNil; VErr "ErrWrongMessageType" []] /\
+  fst (run_func2 (ext_NVS c vd kr) f_saltpack_NewVerifyStream [VV; rd; KR])
+  = ORet [VNil; VNil; VErr "ErrWrongMessageType" []] /\
+  fst (run_func2 (ext_vdet2 c vd kr) f_saltpack_VerifyDetached [VV; VBytes msg; VBytes (S_encode_signcryption c p); KR])
+  = ORet [VNil; VErr "ErrWrongMessageType" []] /\
+  fst (run_func2 (ext_vdet c vd kr) f_saltpack_VerifyDetachedReader [VV; g_rdr msg rv; VBytes (S_encode_signcryption c p); KR])
+  = ORet [VNil; VErr "ErrWrongMessageType" []].
+Proof. exact (go_signature_receivers_refuse_spec_signcryption c p kr vd VV KR rd msg rerr). Qed.
+
+(* the same four with GateProofs.gated itself (the predicate of the C17_gate theorems) *)
+Theorem C17_source_end_to_end_Verify_gate (c : crypto) (vd : validator) (kr : sigring) (VV KR : gval) (input : bytes) (sg body : gval) :
+  fst (run_func2 (ext_verify c vd kr) f_saltpack_Verify [VV; VBytes input; KR]) = ORet [sg; body; VNil] ->
+  gated (Some vd) mt_attached input.
+Proof. exact (fun H => gated_view_gated _ _ _ _ (go_Verify_gated_nil_error c vd kr VV KR input sg body H)). Qed.
+Theorem C17_source_end_to_end_VerifyDetached_gate (c : crypto) (vd : validator) (kr : sigring) (VV KR : gval) (msg sigfile : bytes) (sg : gval) :
+  fst (run_func2 (ext_vdet2 c vd kr) f_saltpack_VerifyDetached [VV; VBytes msg; VBytes sigfile; KR]) = ORet [sg; VNil] ->
+  gated (Some vd) mt_detached sigfile.
+Proof. exact (fun H => gated_view_gated _ _ _ _ (go_VerifyDetached_gated_nil_error c vd kr VV KR msg sigfile sg H)). Qed.
+Theorem C17_source_end_to_end_Open_gate (c : crypto) (pm : bytes -> gval) (vd : validator) (kr : keyring) (VV RING : gval) (input : bytes) (mk body : gval) :
+  fst (run_func2 (ext_open c pm vd kr) f_saltpack_Open [VV; VBytes input; RING]) = ORet [mk; body; VNil] ->
+  gated (Some vd) mt_encryption input.
+Proof. exact (fun H => gated_view_gated _ _ _ _ (go_Open_gated_nil_error c pm vd kr VV RING input mk body H)). Qed.
+Theorem C17_source_end_to_end_SigncryptOpen_gate (c : crypto) (kr : keyring) (signers : sigring) (rv : resolver) (KR RV : gval) (input : bytes) (sg body : gval) :
+  fst (run_func2 (ext_scopen c kr signers rv) f_saltpack_SigncryptOpen [VBytes input; KR; RV]) = ORet [sg; body; VNil] ->
+  gated None mt_signcryption input.
+Proof. exact (fun H => gated_view_gated _ _ _ _ (go_SigncryptOpen_gated_nil_error c kr signers rv KR RV input sg body H)). Qed.
+Local Close Scope string_scope.
+
+Print Assumptions C17_source_end_to_end_Verify_gated.
+Print Assumptions C17_source_end_to_end_Verify_gated_nil_error.
+Print Assumptions C17_source_end_to_end_NewVerifyStream_gated_nil_error.
+Print Assumptions C17_source_end_to_end_VerifyDetached_gated.
+Print Assumptions C17_source_end_to_end_VerifyDetachedReader_gated.
+Print Assumptions C17_source_end_to_end_VerifyDetached_gated_nil_error.
+Print Assumptions C17_source_end_to_end_VerifyDetachedReader_gated_nil_error.
+Print Assumptions C17_source_end_to_end_Open_gated.
+Print Assumptions C17_source_end_to_end_Open_gated_nil_error.
+Print Assumptions C17_source_end_to_end_NewDecryptStream_gated_nil_error.
+Print Assumptions C17_source_end_to_end_SigncryptOpen_gated.
+Print Assumptions C17_source_end_to_end_SigncryptOpen_gated_nil_error.
+Print Assumptions C17_source_end_to_end_NewSigncryptOpenStream_gated_nil_error.
+Print Assumptions C17_source_end_to_end_Verify_gate_refusals.
+Print Assumptions C17_source_end_to_end_VerifyDetached_gate_refusals.
+Print Assumptions C17_source_end_to_end_Open_gate_refusals.
+Print Assumptions C17_source_end_to_end_SigncryptOpen_gate_refusals.
+Print Assumptions C17_source_end_to_end_VerifyDetached_refuses_attached.
+Print Assumptions C17_source_end_to_end_Verify_refuses_detached.
+Print Assumptions C17_source_end_to_end_Verify_refuses_other_version.
+Print Assumptions C17_source_end_to_end_VerifyDetached_refuses_spec_attached.
+Print Assumptions C17_source_end_to_end_Verify_refuses_spec_detached.
+Print Assumptions C17_source_end_to_end_Verify_refuses_spec_other_version.
+Print Assumptions C17_source_end_to_end_SigncryptOpen_refuses_spec_encryption.
+Print Assumptions C17_source_end_to_end_Open_refuses_spec_signcryption.
+Print Assumptions C17_source_end_to_end_signature_receivers_refuse_spec_encryption.
+Print Assumptions C17_source_end_to_end_signature_receivers_refuse_spec_signcryption.
+Print Assumptions C17_source_end_to_end_Verify_gate.
+Print Assumptions C17_source_end_to_end_VerifyDetached_gate.
+Print Assumptions C17_source_end_to_end_Open_gate.
+Print Assumptions C17_source_end_to_end_SigncryptOpen_gate.
+
